@@ -587,8 +587,13 @@ class Render:
         # mask arrays: local zero-initialised arrays tested in conditions
         self.masks = set()
         self.mask_unknown = ""
+        self.tested_scratch = set()
         for e in fk.events:
             if e.kind == "if":
+                for x in walk(e.cond):
+                    a0 = fk.sub_arr(x) if (x.get("k") != "Cast" and _subscript(x) is not None) else None
+                    if a0 is not None and a0.owner == "local" and a0.fresh:
+                        self.tested_scratch.add(a0.key)
                 mt = mask_test(e.canon)
                 if mt and mt[0] in fk.arrs and fk.arrs[mt[0]].owner == "local":
                     self.masks.add(mt[0])
@@ -710,6 +715,7 @@ def rule_renders(w):
     # ---- per render function ---------------------------------------------------------------------------
     for r in sorted(renders.values(), key=lambda r: r.fn.full):
         render_roles(w, r)
+        render_mask_constant(w, r)
         render_two_pass(w, r)
 
 
@@ -804,6 +810,40 @@ def rule_dyn_compose(w):
                 problems.append("inserted index %s has kind %r, not an image node of %s" % (e.args_canon[0], r0, adj))
         ck.ob("E1.render-roles", name, not problems, "; ".join(problems) if problems else
               "after compose(%s): domain count unchanged, _num_nodes_image = %r, inserted indices are image nodes of %s" % (adj, want, adj), fn.file, img_sets[-1].node.get("l") if img_sets else fn.line)
+
+
+def render_mask_constant(w, r):
+    """the duplicate mask of an injectify render is a FLAG array: its elements are only assigned constants (mark / reset).  Arithmetic on an element
+    (`mask[x]++ == 0`, `mask[x] += 1`) turns it into an occurrence counter of the element type - for the narrow mask types (char, bool, short) it wraps
+    after 2^8 / 2^16 occurrences of one image node and the node is listed again"""
+    ck = w.ck
+    fk = r.fk
+    fn = r.fn
+    name = short(fn)
+    for key in sorted(r.tested_scratch):
+        arr = fk.arrs.get(key)
+        if arr is None:
+            continue
+        ety = ""
+        if arr.node is not None and arr.node.get("k") == "Decl" and arr.node.get("vars"):
+            ety = fn.type(arr.node["vars"][0].get("t")) or ""
+        m = re.search(r"vector<\s*([^,>]+)", ety)
+        elem = (m.group(1).strip() if m else ety).replace("const ", "")
+        narrow = elem in ("char", "signed char", "unsigned char", "bool", "short", "unsigned short", "std::uint8_t", "std::int8_t", "std::uint16_t", "std::int16_t", "uint8_t", "uint16_t")
+        ws = [e for e in fk.events if e.kind == "sub" and e.mode == "write" and e.arr is arr]
+        arith = [e for e in ws if e.op not in ("=",)]
+        nonconst = [e for e in ws if e.op == "=" and not (fk.size(e.val) is not None and fk.size(e.val).is_const()) and strip(e.val).get("k") not in ("Bool", "Char")]
+        okey_ = "%s/%s" % (name, key)
+        if arith and narrow:
+            ck.ob("E3.mask-constant", okey_, False, "the duplicate mask %s (element type %s) is updated by `%s` (line %s): it is no longer a flag but an occurrence counter of %s that wraps to 0 "
+                  "after %s occurrences of one image node in an adjacency list - the test `== 0` then accepts the node a second time (duplicate-free rendering broken for "
+                  "adjacency lists with that many repetitions)" % (key, elem, render(arith[0].node)[:40], arith[0].node.get("l"), elem,
+                                                                  "2" if elem == "bool" else ("256" if "char" in elem or "8" in elem else "65536")), fn.file, arith[0].node.get("l"))
+        elif arith or nonconst or not elem:
+            ck.incomplete("E3.mask-constant", "%s: the scratch array is updated by %s (element type %s): neither a flag protocol nor a narrow counter" % (
+                okey_, render((arith or nonconst or ws)[0].node)[:40] if (arith or nonconst or ws) else "?", elem or "?"))
+        else:
+            ck.ob("E3.mask-constant", okey_, True, "%s (element type %s) is only assigned constants: %s" % (key, elem, ", ".join(sorted({e.val_canon for e in ws})) or "-"), fn.file, fn.line)
 
 
 def render_two_pass(w, r):
@@ -3121,6 +3161,8 @@ def run(tier):
             "Img(first) <= Dom(second) (breaks for adjactors of different sizes: image indices beyond the reported image count)", 3)
     ck.rule("E7.alias-inplace", "a member function that overwrites this->A[i] in a loop while reading p.A[j] (j != i) of a parameter p of the same class must test / exclude "
             "p == *this (in-place composition reads entries it has already overwritten: Permutation::concat(p) with p aliasing the object)", 1)
+    ck.rule("E3.mask-constant", "the duplicate mask of the injectify renders is a flag array: elements are only assigned constants (mark 1 / reset 0); arithmetic on an element of a "
+            "narrow mask type (char / bool / short) is an occurrence counter that wraps and lets a node through again", 4)
     w = World(ck, tier)
     rule_safety(w)
     rule_pairs(w)
